@@ -1,11 +1,15 @@
-Require Import Coq.Strings.String.
+Require Import Coq.Strings.String Net.Concrete.
+Require Import Props.C01.
 Require Import Base.Bytes Wire.Layout Wire.Customs Wire.LayoutProofs Wire.CustomProofs Wire.Packet Wire.PacketProofs.
-Require Import Gen.Packets Net.Frame Props.C01.
+Require Import Gen.Packets Net.Frame.
+Local Open Scope N_scope.
 Check c01_decode_encode : forall m p fr rest,
   pindom p = true -> frame_encode m p = Ok fr -> frame_decode m (fr ++ rest) = Got p rest.
 Check c01_reencode_identical : forall m p fr p',
-  pindom p = true -> frame_encode m p = Ok fr -> frame_decode m fr = Got p' [] -> frame_encode m p' = Ok fr.
-Check c01_parse_unparse : forall p body, pindom p = true -> unparse p = Ok body -> parse body = Ok p.
+  pindom p = true -> frame_encode m p = Ok fr -> frame_decode m fr = Got p' [] ->
+  frame_encode m p' = Ok fr.
+Check c01_parse_unparse : forall p body,
+  pindom p = true -> unparse p = Ok body -> parse body = Ok p.
 Check c01_layout_roundtrip :
   forall cwidth cenc cdec cindom,
   (forall c bs, cdec c bs <> Panic) ->
@@ -15,8 +19,10 @@ Check c01_layout_roundtrip :
   sindom cindom l vs tv = true -> rest_ok (ltail l) rest -> enc_struct cenc l vs tv = Ok b ->
   dec_struct cwidth cdec l (b ++ rest) = Ok (vs, tv, rest).
 Check c01_customs_roundtrip : forall c v b, cindom c v = true -> cenc c v = Ok b -> cdec c b = Ok v.
+Check c01_codec_is_stateless_like_the_model : state_tied = true.
 Print Assumptions c01_decode_encode.
 Print Assumptions c01_reencode_identical.
 Print Assumptions c01_parse_unparse.
 Print Assumptions c01_layout_roundtrip.
 Print Assumptions c01_customs_roundtrip.
+Print Assumptions c01_codec_is_stateless_like_the_model.
